@@ -319,7 +319,7 @@ def _run(ctx):
     translators(ctx)
     if not ctx.quick():
         rc, out = C.run(["coqchk", "-silent", "-o", "-Q", os.path.join(C.COQ, "theories"), "Pq", "Pq.Proofs.CompactProofs", "Pq.Proofs.CThriftMain",
-                         "Pq.Proofs.CThriftReser", "Pq.Proofs.CThriftTypedProofs"], timeout=1500, cwd=C.COQ)
+                         "Pq.Proofs.CThriftReser", "Pq.Proofs.CThriftTypedProofs", "Pq.Proofs.CThriftRepaired", "Pq.Proofs.CThriftTotal"], timeout=1500, cwd=C.COQ)
         ctx.obligation("coqchk -o on the C10 proof libraries: re-checked by the standalone checker, Axioms: <none>",
                        rc == 0 and "* Axioms: <none>" in out, out[-1500:])
         ctx.checker_cmds.append("coqchk -silent -o -Q coq/theories Pq Pq.Proofs.{CompactProofs,CThriftMain,CThriftReser,CThriftTypedProofs}")
